@@ -46,6 +46,13 @@ func (f *LogEntryIntegrityCalculator) firstCheck() bool {
 	return f.previousLogEntryIntegrityCheck == nil
 }
 
+// isFirstCheck returns true if the next integrity check starts new chain
+func (f *LogEntryIntegrityCalculator) isFirstCheck() bool {
+	f.mutex.Lock()
+	defer f.mutex.Unlock()
+	return f.firstCheck()
+}
+
 // ResetCryptoKey reset calculator internal state and setup new secret key
 func (f *LogEntryIntegrityCalculator) ResetCryptoKey(key []byte) {
 	f.mutex.Lock()
